@@ -173,12 +173,14 @@ Definition spec_convert (m : mem) (s d ntype n ss ds : Z) : option mem :=
   | None => None
   end.
 
-(** domain of the property: strides at least the element size (or both zero), and
-    source / destination regions identical or disjoint *)
+(** domain of the property: strides at least the element size (or both zero), and source / destination
+    regions disjoint, or in place (same start) with the destination stride not larger than the source
+    stride (identical layout, or packing towards the front: element i is written at or before the place
+    it was read from, so no later source element is clobbered) *)
 Definition in_domain (w s d n ss ds : Z) : bool :=
   let '(se, de) := eff w ss ds in
   (w <=? se) && (w <=? de) && (0 <? n) &&
-  (((s =? d) && (se =? de)) || (d + (n - 1) * de + w <=? s) || (s + (n - 1) * se + w <=? d)).
+  (((s =? d) && (de <=? se)) || (d + (n - 1) * de + w <=? s) || (s + (n - 1) * se + w <=? d)).
 
 (** ---- list front end used by the extracted driver ------------------------ *)
 Definition mem_of_list (l : list Z) : mem := fun a => if a <? 0 then 0 else nth (Z.to_nat a) l 0.
